@@ -100,7 +100,7 @@ def _work(st, batch):
             if new is None:
                 res.counters["rewrite-not-applicable"] += 1
                 continue
-            if pyref.has_tab_after_space_indent(new) and not pyref.has_tab_after_space_indent(text):
+            if pyref.tab_after_space_lines(new) > pyref.tab_after_space_lines(text):
                 res.counters["rewrite-discarded: creates a tab after a space in leading whitespace (outside the quantifier)"] += 1
                 continue
             if ref_dump(new) != base_ref:
